@@ -1504,6 +1504,51 @@ def _influential_reads(prog, roots, cname):
 # P8 attribute sweep of the emulator
 # ---------------------------------------------------------------------------
 
+def rule_P9(ctx, reader, obj, rid='P9'):
+    """Elements of a list attribute are restored by increasing integer index (a key
+    formatted with a range/counter variable), never by iterating the names of a group
+    (h5py yields names in lexicographic order: bound_10 before bound_2)."""
+    ctx.rule(rid, 'ordered restore: list-valued attributes are read back with keys formatted '
+             'from an increasing integer index, not by iterating group member names')
+    gv = _group_vars(reader)
+    n = 0
+    for lp in walk_no_nested(reader.node):
+        it = None
+        if isinstance(lp, ast.For):
+            it, body = lp.iter, lp.body
+        elif isinstance(lp, ast.comprehension):
+            it, body = lp.iter, []
+        if it is None:
+            continue
+        e = it
+        while isinstance(e, ast.Call) and dotted(e.func) in ('list', 'sorted', 'enumerate',
+                                                             'reversed') and e.args:
+            e = e.args[0]
+        over_group = _is_group(e, gv) or (isinstance(e, ast.Call) and
+                                          isinstance(e.func, ast.Attribute) and
+                                          e.func.attr in ('keys', 'values', 'items') and
+                                          _is_group(e.func.value, gv))
+        if not over_group:
+            continue
+        # does the loop fill an attribute of the object?
+        fills = []
+        for st in body:
+            for sub in ast.walk(st):
+                if isinstance(sub, ast.Call) and isinstance(sub.func, ast.Attribute) and \
+                        sub.func.attr in ('append', 'extend', 'insert'):
+                    ra = root_attr(sub.func.value, obj)
+                    if ra:
+                        fills.append(ra[0])
+        n += 1
+        ctx.ob(rid, '%s:iterates-group-names(%s)' % (reader.qualname, ','.join(sorted(set(
+            fills))) or '-'), not fills, reader.where(lp),
+               'iteration over group members does not populate a list attribute' if not fills
+               else 'self.%s is filled while iterating the names of an HDF5 group: the order '
+               'is lexicographic (..._10 before ..._2), so elements come back permuted once '
+               'there are more than ten' % sorted(set(fills))[0])
+    return n
+
+
 def rule_P8(ctx, rid='P8'):
     ctx.rule(rid, 'attribute sweep: the writer that stores every attribute of a fitted network '
              'skips only the attributes it stores explicitly elsewhere (the weight arrays); the '
